@@ -32,6 +32,11 @@ def grid_cases(quick):
                             pols = ["oldest", "newest", "random"] if W > 1 else ["oldest"]
                             for pol in pols:
                                 cases.append({"n": n, "W": W, "steps": steps, "k": k, "mode": mode, "ext": ext, "pol": pol})
+                        # a restarted lifetime dies before it has consumed its first result, the next one carries on
+                        if k >= 1 and (steps == steps_list[-1] or not quick):
+                            cases.append({"n": n, "W": W, "steps": steps, "k": k, "mode": mode, "ext": steps + W, "pol": "oldest", "stall": 1})
+                            if steps + 1 > k:
+                                cases.append({"n": n, "W": W, "steps": steps, "k": k, "mode": mode, "ext": steps + 1, "pol": "newest" if W > 1 else "oldest", "stall": 2})
                         # the restart runs with another worker count (fewer: recorded jobs are surplus; more: an extra fresh pick)
                         if k >= 1 and (mode == "kill" or not quick):
                             for W2 in sorted({W - 1, W - 2, W + 1} & set(range(1, n))):
@@ -56,10 +61,18 @@ def run_grid_case(c, seed=3):
     seg3 = {"steps": c["ext"], "policy": c["pol"], "policy_seed": seed + 2}  # restart of the finished run
     if c.get("W2"):
         seg2["workers"] = seg3["workers"] = c["W2"]
-    h = simdrv.run_history(spec, [seg1, seg2, seg3], {"C17": 1, "C05": 1}, keep=True)
+    stall = [dict(seg2, kill_after=0, policy_seed=seed + 7 + j) for j in range(c.get("stall", 0))]
+    h = simdrv.run_history(spec, [seg1] + stall + [seg2, seg3], {"C17": 1, "C05": 1}, keep=True)
     probs = []
     try:
         res = h["results"]
+        for r in res[1 : 1 + len(stall)]:
+            if r.get("exc"):
+                break
+            if r.get("treat_count"):
+                probs.append(("C17:harness:stalled-lifetime-completed-moves", str(r.get("treat_count"))))
+        else:
+            res = [res[0]] + res[1 + len(stall) :]
         for k, r in enumerate(res):
             if r.get("exc"):
                 tb = r["exc"][3] if len(r["exc"]) > 3 else ""
@@ -134,7 +147,7 @@ def _grid_worker(job):
         probs, res = run_grid_case(c, seed)
         inflight_at_restart = c["mode"] == "kill" and c["W"] >= 2
         rec.case(key=c, nontrivial=inflight_at_restart or (c["ext"] - c["k"] < c["W"] and c["ext"] > c["k"]),
-                 classes=["grid", f"W={c['W']}", "grid:" + c["mode"]] + (["grid:restart-with-fewer-workers" if c["W2"] < c["W"] else "grid:restart-with-more-workers"] if c.get("W2") else []) + [ "grid:short-extension" if 0 < c["ext"] - c["k"] < c["W"] else "grid:extension>=W"],
+                 classes=["grid", f"W={c['W']}", "grid:" + c["mode"]] + (["grid:restart-with-fewer-workers" if c["W2"] < c["W"] else "grid:restart-with-more-workers"] if c.get("W2") else []) + (["grid:restarted-lifetime-killed-before-its-first-result"] if c.get("stall") else []) + [ "grid:short-extension" if 0 < c["ext"] - c["k"] < c["W"] else "grid:extension>=W"],
                  sample=c if len(rec.samples) < 2 and inflight_at_restart else None)
         for sig, msg in probs:
             rec.violation(sig, f"{msg}; case={c}", {"part": "grid", "case": c, "seed": seed})
